@@ -159,3 +159,67 @@ def sedov(model, res, prop=PROP, rule=RULE):
                             % (src_of(o.right if isinstance(o, ast.BinOp) else o)[:90] if o is not None else str(num)[:90],
                                hit[1][:70], ''),
                             line=getattr(o, 'lineno', st.lineno), construct=src_of(st)[:100]))
+
+
+def guarded_elsewhere(model, res, prop=PROP, rule=RULE):
+    """Second contradiction shape: one method of Sedov tests `density > 0.` before it divides by density ("compute ... only if
+    density is greater than 0": the vacuum hole has density exactly 0), another divides by the quantity of the same name
+    without any test.  Every division in the class whose denominator mentions a name that a sibling division guards must be
+    under a test of that name (an `if`, or the condition of a numpy.where around it)."""
+    cls = model.get_class(SEDOV)
+    guarded = {}
+    funcs = list(cls.methods.values())
+    for fi in funcs:
+        for st in ast.walk(fi.node):
+            if isinstance(st, ast.If) and isinstance(st.test, ast.Compare) and len(st.test.ops) == 1 \
+                    and isinstance(st.test.ops[0], (ast.Gt, ast.NotEq)) and isinstance(st.test.left, ast.Name) \
+                    and isinstance(st.test.comparators[0], ast.Constant) and st.test.comparators[0].value == 0:
+                nm = st.test.left.id
+                for x in ast.walk(ast.Module(body=st.body, type_ignores=[])):
+                    if isinstance(x, ast.BinOp) and isinstance(x.op, ast.Div) and any(
+                            isinstance(y, ast.Name) and y.id == nm for y in ast.walk(x.right)):
+                        guarded.setdefault(nm, (fi, st))
+    if not guarded:
+        raise AnalysisError('Sedov: no division guarded by a positivity test found (confirmed: density in physical())')
+    n = 0
+    for fi in funcs:
+        parents = {}
+        for p in ast.walk(fi.node):
+            for c in ast.iter_child_nodes(p):
+                parents[c] = p
+        for x in ast.walk(fi.node):
+            if not (isinstance(x, ast.BinOp) and isinstance(x.op, ast.Div)):
+                continue
+            names = {y.id for y in ast.walk(x.right) if isinstance(y, ast.Name)} & set(guarded)
+            if not names:
+                continue
+            # only the outermost division of an expression
+            if isinstance(parents.get(x), ast.BinOp) and isinstance(parents[x].op, ast.Div) and parents[x].left is x:
+                continue
+            nm = sorted(names)[0]
+            ok = False
+            y = x
+            while y in parents:
+                y = parents[y]
+                if isinstance(y, (ast.If, ast.IfExp)) and any(isinstance(z, ast.Name) and z.id == nm for z in ast.walk(y.test)):
+                    ok = True
+                    break
+                if isinstance(y, ast.Call) and isinstance(y.func, ast.Attribute) and y.func.attr == 'where' and y.args \
+                        and any(isinstance(z, ast.Name) and z.id == nm for z in ast.walk(y.args[0])):
+                    ok = True
+                    break
+            n += 1
+            res.obligations += 1
+            res.evaluations += 1
+            res.nontrivial += 1
+            if ok:
+                res.discharged += 1
+            else:
+                gfi, gst = guarded[nm]
+                res.add(Finding(prop, rule, fi.module.relpath, fi.qualname, 'unguarded division by %s: %s' % (nm, src_of(x)[:50]),
+                                "%s divides by `%s` without a test (`%s`), while %s computes the same quotient only under `%s` because the "
+                                "quantity is exactly 0 in the vacuum region: inside the hole of a vacuum-type solution the result is 0/0 = NaN "
+                                "for a valid request" % (fi.qualname, nm, src_of(x)[:60], gfi.qualname, src_of(gst.test)),
+                                line=x.lineno, construct=src_of(x)[:100]))
+    if n < 3:
+        raise AnalysisError('Sedov: only %d divisions by a guarded quantity found (confirmed: 4)' % n)
